@@ -35,6 +35,7 @@ func checkC06(c *Ctx, r *Report) {
 	c06NilKinds(c, r)
 	c06G3(c, r, a)
 	c06G4(c, r, a)
+	c06Once(c, r, a)
 }
 
 func c06G5(c *Ctx, r *Report, a *Anchors) {
